@@ -36,8 +36,9 @@ TWev == IsEvent("wev") /\ UNCHANGED vars
 TCbStatus == IsEvent("cb_status") /\ D!CbStatus(Cur.s)
 TCbUpd == IsEvent("cb_upd") /\ D!CbUpdates(Cur.kvs)
 TCbFail == IsEvent("cb_syncfailed") /\ UNCHANGED vars
+TGate == (IsEvent("hold") \/ IsEvent("release")) /\ UNCHANGED vars      \* the consumer is blocked in / released from a callback
 TQuiesce == IsEvent("quiesce") /\ D!Quiesce
 
-TNext == TReset \/ TMut \/ TList \/ TWatch \/ TWev \/ TCbStatus \/ TCbUpd \/ TCbFail \/ TQuiesce
+TNext == TReset \/ TMut \/ TList \/ TWatch \/ TWev \/ TCbStatus \/ TCbUpd \/ TCbFail \/ TGate \/ TQuiesce
 TSpec == TInit /\ [][TNext]_<<vars, l>>
 =============================================================================
